@@ -418,3 +418,33 @@ theorem callOp_deep (c : Config) (k : Kind) (st : AState) (probe : Arr) :
         simpa using this
 
 end Darsia.Pipeline
+
+namespace Darsia.Pipeline
+
+theorem diffD_self (o : DiffOpt) (k : DKind) (bits : Nat) (x : Rat) : diffD o k bits k bits x x = 0 := val_self o _
+
+theorem diffD_parts (kb : DKind) (bb : Nat) (kp : DKind) (bp : Nat) (b p : Rat) :
+    diffD .positive kb bb kp bp b p + diffD .negative kb bb kp bp b p = diffD .absolute kb bb kp bp b p ∧
+    diffD .positive kb bb kp bp b p - diffD .negative kb bb kp bp b p = diffD .plain kb bb kp bp b p :=
+  ⟨pos_add_neg _ _, pos_sub_neg _ _⟩
+
+/-- unsigned values of the type land in [0, 1] -/
+theorem apply_unsigned_range (bits : Nat) (hb : 0 < bits) (x : Rat) (h0 : 0 ≤ x) (h1 : x ≤ ((2 ^ bits - 1 : Nat) : Rat)) :
+    0 ≤ PRule.unsigned.apply bits x ∧ PRule.unsigned.apply bits x ≤ 1 := by
+  have hm := pow_sub_one_pos bits hb
+  unfold PRule.apply
+  exact ⟨div_nonneg h0 (le_of_lt hm), by rw [div_le_iff₀ hm]; linarith⟩
+
+/-- signed values of the type land in [−1, 1]; above the most negative value the rule is the plain quotient -/
+theorem apply_signed_range (m x : Rat) (hm : 0 < m) (h0 : -(m + 1) ≤ x) (h1 : x ≤ m) :
+    -1 ≤ maxR (-1) (x / m) ∧ maxR (-1) (x / m) ≤ 1 ∧ (-m ≤ x → maxR (-1) (x / m) = x / m) := by
+  have hx1 : x / m ≤ 1 := by rw [div_le_iff₀ hm]; linarith
+  unfold maxR
+  refine ⟨?_, ?_, fun h => ?_⟩
+  · split_ifs with h <;> linarith
+  · split_ifs with h <;> linarith
+  · have : -1 ≤ x / m := by rw [le_div_iff₀ hm]; linarith
+    rw [if_pos this]
+
+end Darsia.Pipeline
+
